@@ -219,6 +219,29 @@ func check1(in Input) (f *fail, accepted bool) {
 				if m.Source.Keyword != "module" && m.Source.Keyword != "submodule" {
 					problems = append(problems, "top-level "+m.Source.Keyword+" registered as a module")
 				}
+				if len(problems) > 0 {
+					continue
+				}
+				// the mirror is still one after the calls a user makes next: the extension lookup
+				// on every node for every extension written on it, and a processing run
+				for n := range w.visited {
+					for _, x := range n.Exts() {
+						if i := strings.Index(x.Keyword, ":"); i >= 0 {
+							yang.MatchingExtensions(n, m.Name, x.Keyword[i+1:])
+						}
+					}
+				}
+				ms.Process()
+				w2 := &walker{seen: map[*yang.Statement]int{}, visited: map[yang.Node]bool{}}
+				w2.collect(m, nil)
+				for _, p := range w2.problems {
+					problems = append(problems, "after extension lookups and a processing run: "+p)
+				}
+				for _, s := range src {
+					if w2.seen[s] != 1 {
+						problems = append(problems, fmt.Sprintf("after extension lookups and a processing run: statement %s %q represented %d times", s.Keyword, s.Argument, w2.seen[s]))
+					}
+				}
 			}
 		}
 		// every top-level statement of the text must have become a registered module
@@ -256,15 +279,16 @@ func render(chain []string, inner string) string {
 	return sb.String()
 }
 
-// renderExt is render with an extension statement before and after the block of every level.
+// renderExt is render with an extension statement before and after the block of every level,
+// spelled with the module's own prefix (so that an extension lookup can resolve it).
 func renderExt(chain []string, inner string) string {
 	var sb strings.Builder
 	for i, k := range chain {
-		fmt.Fprintf(&sb, "%s x%d { %s p:a%d 1; ", k, i, needText(k, 0), i)
+		fmt.Fprintf(&sb, "%s x%d { %s m:a%d 1; ", k, i, needText(k, 0), i)
 	}
 	sb.WriteString(inner)
 	for i := range chain {
-		fmt.Fprintf(&sb, " q:b%d 2; }", len(chain)-1-i)
+		fmt.Fprintf(&sb, " m:b%d 2; }", len(chain)-1-i)
 	}
 	return sb.String()
 }
